@@ -76,6 +76,8 @@ def class_iface(repo, cls, sigma=None):
             for s, (si, so) in lv.names.items():
                 ins |= {n for n in si if "." not in _strip(n)}
                 outs |= {n for n in so if "." not in _strip(n)}
+        # a promoted name produced inside the group is satisfied inside it: not an external input
+        ins -= outs
         res = Iface(ins, outs, known)
     elif cls.kind == "indep":
         res = Iface(known=False)
